@@ -72,6 +72,8 @@ def rand_layout_tree(rng, ids, depth, valid=True, inside_inline=False, max_child
     """Random subtree.  valid=True keeps block tags out of inline tags."""
     w = kinds_w or {"block": 4, "inline": 4, "void_inline": 1, "void_block": 1, "text": 4, "html": 1, "obj": 1,
                     "meta": 1, "dep": 0.5}
+    if "rawtext" not in w:
+        w = dict(w, rawtext=0.6)
     ks = [k for k in w if not (valid and inside_inline and k in ("block", "void_block"))]
     kind = root_kind or rng.choices(ks, [w[k] for k in ks])[0]
     if depth <= 0 and kind in ("block", "inline"):
@@ -89,6 +91,19 @@ def rand_layout_tree(rng, ids, depth, valid=True, inside_inline=False, max_child
         return node_of_kind(kind, ids, rng, kids)
     if kind == "text":
         return leaf("text", ids, rng, text_ws)
+    if kind == "rawtext":
+        # <script>/<style>: text children are written verbatim, the layout rules are the same as for any tag
+        n = rng.choice([0, 1, 2, 2, 3])
+        kids = [{"k": "text", "s": ids.next("s")} for _ in range(n)]
+        if n and rng.random() < 0.2:
+            kids.append({"k": "meta"})
+        ws = rng.random() < 0.5 and not (valid and inside_inline)
+        if rng.random() < 0.3 and depth > 0:
+            # (unusual but allowed) element children: they are laid out like anywhere else
+            for _ in range(rng.randint(1, 2)):
+                kids.insert(rng.randint(0, len(kids)), node_of_kind("block" if rng.random() < 0.5 and (ws or not valid) else "inline", ids, rng,
+                                                                     [leaf("text", ids)] if rng.random() < 0.5 else []))
+        return gen.TAG(rng.choice(["script", "style"]), *kids, ws=ws, via_fn=False, attrs=_attrs(rng, ids))
     return node_of_kind(kind, ids, rng)
 
 
